@@ -79,13 +79,29 @@ func (x *World) gmapFor(op Op) gmap {
 
 func (x *World) gexchangeFor(op Op) *generic.Exchange {
 	ex := generic.NewExchange(x.w)
-	if op.Add != nil {
-		ex = ex.Adds(x.gcomps(op.Add)...)
+	// the builder calls commute; which one comes first alternates with the operation (a configuration must not
+	// depend on the order in which it was put together)
+	x.gexSeq++
+	relFirst := x.gexSeq%2 == 0
+	if op.HasRel && relFirst {
+		ex = ex.WithRelation(gcComps[op.Rel])
 	}
-	if op.Rem != nil {
-		ex = ex.Removes(x.gcomps(op.Rem)...)
+	if x.gexSeq%4 < 2 {
+		if op.Add != nil {
+			ex = ex.Adds(x.gcomps(op.Add)...)
+		}
+		if op.Rem != nil {
+			ex = ex.Removes(x.gcomps(op.Rem)...)
+		}
+	} else {
+		if op.Rem != nil {
+			ex = ex.Removes(x.gcomps(op.Rem)...)
+		}
+		if op.Add != nil {
+			ex = ex.Adds(x.gcomps(op.Add)...)
+		}
 	}
-	if op.HasRel {
+	if op.HasRel && !relFirst {
 		ex = ex.WithRelation(gcComps[op.Rel])
 	}
 	return ex
@@ -186,7 +202,7 @@ func (x *World) execGeneric(op Op, line map[string]interface{}, args map[string]
 		args["e"] = ent(e)
 		args["add"] = nonNil(add)
 		args["rem"] = nonNil(rem)
-		args["hasRel"] = op.HasRel
+		args["hasRel"] = op.HasRel && op.HasTgt // a relation that is configured but gets no target: plain exchange
 		args["rel"] = op.Rel
 		args["hasTgt"] = op.HasTgt
 		args["tgt"] = ent(tgt)
